@@ -189,10 +189,17 @@ def _frame_table(rng, frame_types):
     return E.Table(4, b'FRAME', None if rng.random() < 0.5 else E.rand_ident(rng, 6), template, objects)
 
 
+NAME_POOL = None      # optional list of identifiers to draw channel / frame names from (so that different files share names)
+
+
 def _names(rng, n, taken):
     out = []
     while len(out) < n:
-        i = bytes(rng.choice(b'ABCDEFGHIJKLMNOPQRSTUVWXYZ0123456789_') for _ in range(rng.randrange(1, 9)))
+        free = [nm for nm in (NAME_POOL or []) if nm not in taken]
+        if free:
+            i = rng.choice(free)
+        else:
+            i = bytes(rng.choice(b'ABCDEFGHIJKLMNOPQRSTUVWXYZ0123456789_') for _ in range(rng.randrange(1, 9)))
         if i in taken:
             continue
         taken.add(i)
